@@ -316,3 +316,90 @@ Lemma comment_at_eof_refuted_lemma :
 Proof.
   exists [37]. split; [repeat constructor|]. split; [intros [X|[]]; discriminate|]. split; vm_compute; reflexivity.
 Qed.
+
+(* ================= C04 part: progress and absence of std::logic_error ================= *)
+Lemma in_top_flags t ch : t_in_token (in_top t ch) = t_in_token t /\ t_before (in_top t ch) = t_before t.
+Proof.
+  unfold in_top. repeat match goal with |- context [if ?c then _ else _] => destruct c end; split; reflexivity.
+Qed.
+
+Lemma first_step_flag m t ch : tk_unread_flag (nt_step m (tk_reset t) ch) = false.
+Proof.
+  assert (H : t_in_token (handle_character (tk_reset t) ch) || t_before (handle_character (tk_reset t) ch) = true).
+  { unfold handle_character, tk_reset. cbn [t_state]. unfold in_before_token. cbn [t_incl_ign].
+    destruct (tk_is_space ch).
+    - destruct (t_incl_ign t); reflexivity.
+    - destruct (ch =? 37).
+      + destruct (t_incl_ign t); reflexivity.
+      + match goal with |- context [in_top ?x ch] => destruct (in_top_flags x ch) as [A B]; rewrite A end. reflexivity. }
+  unfold nt_step, present_char_nr, tk_unread_flag.
+  set (t1 := handle_character (tk_reset t) ch) in *. clearbody t1.
+  assert (H2 : forall x, t_in_token x || t_before x = true -> negb (t_in_token x) && negb (t_before x) = false).
+  { intros x Hx. destruct (t_in_token x), (t_before x); try reflexivity; discriminate. }
+  destruct (t_in_token t1) eqn:E.
+  - match goal with |- context [if ?c then _ else _] => destruct c end; apply H2; cbn; rewrite ?E; reflexivity.
+  - cbn [orb] in H. match goal with |- context [if ?c then _ else _] => destruct c end; apply H2; cbn; rewrite ?E, ?H; reflexivity.
+Qed.
+
+Lemma nt_loop_len : forall inp m t off pos,
+  (length (snd (fst (fst (nt_loop m t inp off pos)))) <= length inp)%nat.
+Proof.
+  induction inp as [|ch r IH]; intros m t off pos.
+  - cbn [nt_loop]. destruct (ttype_eqb _ _ && _); cbn; lia.
+  - cbn [nt_loop]. destruct (is_ready (nt_step m t ch)).
+    + destruct (tk_unread_flag (nt_step m t ch)); cbn; lia.
+    + specialize (IH m (nt_step m t ch) (if t_before (nt_step m t ch) then off + 1 else off) (pos + 1)). cbn [length]. lia.
+Qed.
+
+(* next_token_progress (DESIGN C04): on a non-empty input nextToken always consumes at least one byte,
+   whatever the bytes, the length limit and the tokenizer's previous state (inline-image mode excepted:
+   there the caller has positioned the tokenizer with expectInlineImage): a parser loop cannot spin. *)
+Lemma next_token_progress_lemma : forall max_len t inp pos,
+  inp <> [] -> t_state t <> TS_inline_image ->
+  (length (snd (fst (fst (next_token max_len t inp pos)))) < length inp)%nat.
+Proof.
+  intros m t inp pos Hne Hst. unfold next_token.
+  assert (Ht0 : match t_state t with TS_inline_image => t | _ => tk_reset t end = tk_reset t)
+    by (destruct (t_state t); try reflexivity; contradiction).
+  rewrite Ht0. destruct inp as [|ch r]; [contradiction|].
+  assert (H : (length (snd (fst (fst (nt_loop m (tk_reset t) (ch :: r) pos pos)))) < length (ch :: r))%nat).
+  { cbn [nt_loop]. destruct (is_ready (nt_step m (tk_reset t) ch)).
+    - rewrite first_step_flag. cbn. lia.
+    - pose proof (nt_loop_len r m (nt_step m (tk_reset t) ch)
+                    (if t_before (nt_step m (tk_reset t) ch) then pos + 1 else pos) (pos + 1)). cbn [length]. lia. }
+  destruct (nt_loop m (tk_reset t) (ch :: r) pos pos) as [[[t1 rest] off] np]. exact H.
+Qed.
+
+Lemma present_collect_ok t ch acc : is_ready t = false ->
+  exists t' acc', present_collect t ch acc = Some (t', acc') /\ is_ready t' = false.
+Proof.
+  intros Hr. unfold present_collect, present_character. rewrite Hr. unfold get_token.
+  destruct (is_ready (present_char_nr t ch)) eqn:E1.
+  - destruct (tk_unread_flag (present_char_nr t ch)).
+    + change (is_ready (tk_reset (present_char_nr t ch))) with false. cbv iota.
+      destruct (is_ready (present_char_nr (tk_reset (present_char_nr t ch)) (t_unread (present_char_nr t ch)))) eqn:E2.
+      * eexists. eexists. split; reflexivity.
+      * eexists. eexists. split; [reflexivity|exact E2].
+    + eexists. eexists. split; reflexivity.
+  - eexists. eexists. split; [reflexivity|exact E1].
+Qed.
+
+Lemma tok_stream_loop_ok : forall inp t acc, is_ready t = false ->
+  exists t' acc', tok_stream_loop t inp acc = Some (t', acc').
+Proof.
+  induction inp as [|ch r IH]; intros t acc Hr.
+  - eexists. eexists. reflexivity.
+  - cbn [tok_stream_loop]. destruct (present_collect_ok t ch acc Hr) as (t' & acc' & Hp & Hr'). rewrite Hp. apply IH, Hr'.
+Qed.
+
+(* no_logic_error_tokenizer (DESIGN C04): the classic presentCharacter/getToken driver loop never presents
+   a character to a tokenizer whose token is waiting, i.e. never triggers the std::logic_error of
+   Tokenizer::inTokenReady, for any input and flags *)
+Lemma no_logic_error_tokenizer_lemma : forall allow_eof incl_ign inp eof,
+  tok_stream allow_eof incl_ign inp eof <> None.
+Proof.
+  intros ae ii inp eof. unfold tok_stream.
+  destruct (tok_stream_loop_ok inp (tk_new ae ii) [] eq_refl) as (t' & acc' & H). rewrite H.
+  destruct eof; [|discriminate].
+  unfold get_token. destruct (is_ready (present_eof t')); discriminate.
+Qed.
